@@ -28,6 +28,16 @@ CLAIMED = {
             "Generated names, related pairs/triples, pools, wire contexts and constructor programs are checked against an independent canonical-order / case-folded-equality model, a wire round trip at arbitrary offsets with and without compression, a text round trip for host-style names, and the 255/63 limits after every constructor step. Sampling, not proof: it reports how many distinct non-trivial cases stood behind the verdict.",
             "Trusts the harness's reference model (refm/canon.rs, ~60 lines from RFC 4034 §6.1) and proptest's generators; text clause limited to the alphabet the statement names.",
             "DESIGN.md §7 C04"),
+    "C05": ("exploration",
+            "property-based testing (proptest) + exhaustive order enumeration: hickory's TBS octets compared byte for byte with an independent RFC 4034 §6 / RFC 4035 §5.3.2 encoder; cross-signer differential with ring (third party signs → hickory verifies; hickory signs → third party verifies)",
+            "Generated RRsets of 22 RDATA kinds (arbitrary order, duplicates, mixed-case owners and RDATA names, wildcard owners with reduced Labels, TTL ≠ OrigTTL, wrapped windows) × RRSIG parameter tuples: TBS::from_input must equal the reference signed data byte for byte; ring signs the reference octets and hickory must accept (and reject a one-bit control); hickory signs and ring must verify over the reference octets, for ED25519, ECDSA P-256/P-384, RSASHA256/512; fixed openssl vectors for RSASHA1 variants; every member order of 5 fixed sets.",
+            "Trusts refm/tbs_ref.rs + refm/dnssec_wire.rs (own canonical encoders) and ring. Three known findings (sort not canonical, duplicates kept, RFC 4034-listed types hickory does not model) are diagnosed by exact octet equality against an alternative model and excluded by signature.",
+            "DESIGN.md §7 C05"),
+    "C06": ("exploration",
+            "property-based testing (proptest) + exhaustive bit/clock sweep: single-field and single-bit mutations of records, RRSIG and DNSKEY × clock values around the window (incl. u32 wrap) × validate/advance/re-validate histories on one validator, against a stateless reference validator",
+            "A scripted upstream serves harness-encoded, ring-signed responses to the real DnssecDnsHandle (trust anchor = zone key) under the virtual clock (wall and monotonic in lock step). Soundness: Secure ⇒ the reference (RFC 4035 §5.3.1-3, RFC 1982) says Secure at that instant, at every step of a history incl. cache hits; completeness for the genuine response inside the window; Secure TTL ≤ min(original TTL, expiration − now). Every answer-section bit and every clock within 3 s of the window edges / ±2^31 points are swept for fixed scenarios.",
+            "Trusts refm/val_ref.rs and ring. Three known findings (cached verdict outlives the signature window; cached TTL exceeds remaining lifetime; panic on RRSIG-covering-DNSKEY without a DNSKEY RR) are excluded by signature.",
+            "DESIGN.md §7 C06"),
     "C10": ("exploration",
             "property-based testing (proptest) + exhaustive RFC 4592 example sweep: generated zones × queries through the real Catalog, differential against an independent RFC 1034 §4.3.2 / RFC 4592 reference model",
             "Generated zones over a small universe (hosts, ENTs, wildcards at several depths, CNAME chains/loops, delegations with/without glue and DS, occluded data; unsigned / NSEC / NSEC3±opt-out) are rendered into hickory's InMemoryZoneHandler and, independently, into the harness's reference model; every query name in and around the zone × 9 qtypes × DO goes in as bytes through Request::from_bytes → Catalog::handle_request → ResponseHandle and the response is read by the harness's own wire reader. Compared: rcode, AA, answer set incl. in-zone CNAME chain and synthesised owners, no data from below a cut, referral shape, SOA on negatives, NXDOMAIN vs NODATA (ENT), RRSIG/denial presence with DO.",
@@ -38,6 +48,11 @@ CLAIMED = {
             "Catalogs with nested/sibling/root zones and chained handlers, allow/deny sets with nested v4/v6 prefixes, UDP/TCP; requests drawn from valid queries, every opcode, EDNS versions, QR=1, runts, QDCOUNT 0/2, garbage, byte mutations and random bytes go through VerifFrontDoor::handle. Responses sent must be 0 for runts/responses and exactly 1 otherwise with QR=1, the request's ID and (when it parsed) question; rcode within the set of codes whose condition holds; TXT marker = longest-suffix origin; no panic; a fixed probe still answered afterwards.",
             "Trusts refm/frontdoor_ref.rs (ACL model from the access.rs rustdoc). Where the statement fixes no precedence between gates the oracle accepts the set.",
             "DESIGN.md §7 C11"),
+    "C15": ("exploration",
+            "property-based testing (proptest): insert/get/clear histories with explicit instants under the virtual clock against a pure TTL-cache reference model",
+            "Histories of ≤30 (thorough 40) operations over 3 queries with nanosecond times (steps of 0 / sub-second / seconds / jumps to the model's expiry ±{0,1 ns,0.5 s,1 s}) × TtlConfig built through its serde form (default / per-type, min>ttl, max<ttl, min=max, 0). Every hit must be the most recent cacheable insert, within its lifetime L, with every TTL = per-type clamped − ⌊elapsed⌋ floored at 0 and non-increasing; transient errors never come back. The hit ratio on certainly-live entries is measured (100 % in quick) so the check cannot go vacuous. clear/clear_query are exercised through CachingClient.",
+            "Trusts refm/cache_ref.rs. Where the statement admits two readings of L (CNAME bounds vs query-type bounds) the weaker bound is asserted and the difference counted. None is always acceptable (eviction).",
+            "DESIGN.md §7 C15"),
     "C16": ("exploration",
             "schedule enumeration + property-based testing (proptest) on a simulated runtime: every arrival order of ≤4 forged/genuine datagrams enumerated, longer schedules and multiplexer op histories sampled; oracle = validity predicate on which datagram may complete a query + ID-routing model",
             "The real UdpClientStream runs on the harness's discrete-event runtime; every datagram is built from the bytes hickory actually sent. All sequences of ≤4 datagrams over 9 forged/genuine kinds × 0x20 on/off are enumerated; longer schedules (≤3 transmissions, ≤10 datagrams each) are sampled. Ok ⇒ byte-identical to a delivered datagram from the queried addr:port with the wire ID and asked questions (case-exact under 0x20), among the first three read on its socket; otherwise error/timeout. The real DnsMultiplexer is polled by hand over a scripted stream: in-flight IDs pairwise distinct, responses routed by ID only, unknown IDs dropped, close/error fails every pending request, timeouts reported.",
@@ -53,6 +68,16 @@ CLAIMED = {
             "The real NameServerPool::from_config runs on the discrete-event runtime against 1..4 scripted servers (answer, trusted/untrusted NXDOMAIN, TC-on-UDP with full/refused/reset/hanging TCP, silent, io errors, resets, Busy×n) × ordering strategy × num_concurrent_reqs × protocols × 1..5 callers. Ok ⇒ an answer some server's behaviour can produce, never a truncated UDP body; fast-failing faults + ≥1 healthy server ⇒ Ok; completion time ≤ timeout in virtual time; k identical concurrent callers cause the same exchanges as one and get equal results; a later lookup causes a new exchange.",
             "Liveness is asserted only where the pool's server ordering cannot matter. Two known findings (deadline overrun by the attempt in flight; 'receiver was canceled' treated as fatal) are excluded by signature and reported as KNOWN-FINDING; a larger overrun stays a VIOLATION.",
             "DESIGN.md §7 C18"),
+    "C19": ("exploration",
+            "property-based testing (proptest) on a simulated internet in virtual time: generated delegation graphs with hostile servers, differential against an own authoritative-server model; oracle = truth set of returnable records, provenance of contacted addresses, structural query bound",
+            "The real Recursor runs on the discrete-event runtime (deterministic OS randomness per case) against generated internets (root + ≤3 levels, in/out-of-zone NS names, glue or not, lame/dead servers, self-referential and mutually glueless delegations, NS and CNAME loops) whose hostile servers append out-of-bailiwick records with a poison marker in any section. Returned records ⊆ model truth set; no poison in answers, follow-ups or negative-answer authorities; every contacted address was learnt from an in-bailiwick source and passes the server filter; no returned address in a denied net; datagrams per resolve ≤ a structural bound; alias hops ≤ recursion limit; CachingClient ≤ 9 upstream queries on any alias graph.",
+            "Trusts refm/authsim.rs. The query bound detects explosive recursion, not off-by-one. Two known findings (out-of-zone record in negative-answer authority; NS address taken from an unrelated answer record) are excluded by signature.",
+            "DESIGN.md §7 C19"),
+    "C20": ("exploration",
+            "property-based testing (proptest): record sets rendered by an independent RFC 1035 §5 master-file printer with per-line random layout, parsed by hickory and compared with the denoted records; mutated/garbage texts for robustness under a CPU-time watchdog",
+            "Record sets of 22 parser-supported types are printed with randomised layout (absolute/relative/@/inherited owners, TTL explicit/$TTL/previous, class present/absent, $ORIGIN switches, comments, blank lines, parenthesised continuation, quoted/unquoted strings, escaped dots/quotes/backslashes, tabs, CRLF, missing final newline, long runs) and must load to exactly the denoted (owner, class, type, TTL, RDATA) set. Garbage (mutated renderings, token soup, unbalanced quotes/parens, huge numbers, $INCLUDE, random bytes) must give Ok or Err, never a panic or a spin.",
+            "Trusts refm/zonefile_printer.rs. A failing case is attributed to a layout feature only if the clean rendering loads correctly and the feature alone still breaks it; eleven known findings are excluded by such signatures, everything else is a VIOLATION.",
+            "DESIGN.md §7 C20"),
 }
 
 NOT_YET = {}
